@@ -243,6 +243,18 @@ pub fn corpus() -> Vec<(Cfg, Vec<Op>)> {
     }
     // D12-adjacent: longest legal name
     v.push((Cfg::plain(), vec![Op::Add { name: "n".repeat(65536), size: 3, src: vec![1, 2, 3] }, Op::Finalize]));
+    // many files open at once (20), closed oldest first, the others still being written
+    {
+        let n = 20usize;
+        let mut ops: Vec<Op> = (0..n).map(|i| Op::Start(format!("w{i}"))).collect();
+        for i in 0..n { ops.push(Op::Append { id: i as u64, size: 5, src: rng.bytes(5, 3) }); }
+        for i in 0..n {
+            ops.push(Op::End(i as u64));
+            if i + 1 < n { ops.push(Op::Append { id: (n - 1) as u64, size: 2, src: rng.bytes(2, 3) }); ops.push(Op::Append { id: (i + 1) as u64, size: 3, src: rng.bytes(3, 3) }); }
+        }
+        ops.push(Op::Finalize);
+        v.push((Cfg::plain(), ops));
+    }
     // interleaving shapes with a LARGE foreign block between the runs of a file (one compression block,
     // and more than the repair cache): a file of three runs with a small and a large foreign block in
     // between; sizes that only exist at production constants are exercised at production constants
